@@ -71,7 +71,12 @@ class AbstractDenseTimeOnlineInterpreter(AbstractOnlineInterpreter, DenseTimeInt
 class DenseTimeOnlineUpdateVisitor(AbstractOnlineUpdateVisitor):
     def __init__(self):
         super(DenseTimeOnlineUpdateVisitor, self).__init__()
-        self.emitted_constants = set()
+        self.emitted_constants = dict()
+        self.update_number = 0
+
+    def visitAst(self, ast, *args, **kwargs):
+        self.update_number += 1
+        return super(DenseTimeOnlineUpdateVisitor, self).visitAst(ast, *args, **kwargs)
 
     def visitVariable(self, node, online_operator_dict, var_object_dict):
         vals = var_object_dict[node.var]
@@ -87,9 +92,12 @@ class DenseTimeOnlineUpdateVisitor(AbstractOnlineUpdateVisitor):
         # A constant is the signal [[0, c], [inf, c]]. It is complete after its
         # first delivery: handing it to the consuming operation again on every
         # update appends samples that go back in time to the operand buffers.
-        if node in self.emitted_constants:
+        # A constant node may have several consumers (a named constant such as
+        # 'k = 3;' is an assertion of its own and an operand of every formula
+        # that refers to it): all of them are served during that first update.
+        first = self.emitted_constants.setdefault(node, self.update_number)
+        if first != self.update_number:
             return []
-        self.emitted_constants.add(node)
         sample_return = [[0, node.val], [float("inf"), node.val]]
         return sample_return
 
